@@ -4,7 +4,7 @@ from proto import lines_equal
 
 INPLACE = ("setitem", "setvalues", "probe_write", "probe_dims", "ndwrite", "absi", "signi")
 INDEPENDENT_RESULT = ("copy", "add", "sub", "mul", "div", "min", "max", "pow", "neg", "abs", "absm", "sign",
-                      "castto", "getitem", "full", "radd", "rsub", "rmul", "rdiv", "shares", "cumsum", "stack")
+                      "castto", "getitem", "full", "fullnd", "fulllike", "radd", "rsub", "rmul", "rdiv", "shares", "cumsum", "stack")
 
 
 def parse_dump(ob):
